@@ -123,7 +123,8 @@ class Session:
 
     ``answers``: optional callable(call_index, lp, highs) -> None | dict with
     keys ``status`` (str), ``values`` (list), ``objective`` (number),
-    ``skip_native`` (bool).  ``None`` means honest native solve.
+    ``skip_native`` (bool), or ``alarm`` (bool: honest native solve during which the
+    wrapper's SIGALRM handler is invoked).  ``None`` means honest native solve.
     """
 
     def __init__(self, answers=None, keep_values=True):
@@ -157,6 +158,14 @@ def _patched_optimize(self, *a, **k):
             lp.honest_obj = float(highspy.Highs.getObjectiveValue(self))
             if sess.keep_values:
                 lp.honest_vals = [float(x) for x in highspy.Highs.allVariableValues(self)]
+    if ans is not None and ans.get("alarm"):
+        # environment event: the wrapper's custom SIGALRM timeout fires while the native solve is running
+        # (delivered synchronously here; the native result stays what it honestly is)
+        import signal as _signal
+        hnd = _signal.getsignal(_signal.SIGALRM)
+        if callable(hnd):
+            hnd(_signal.SIGALRM, None)
+        return ret
     if ans is not None:
         st = ans.get("status", "kOptimal")
         self.getModelStatus = lambda st=st: _Status(st)
